@@ -210,3 +210,32 @@ func VerifHarness_C14_CLIQuery() {
 	}
 	verifReach("accepted")
 }
+
+// the same query searched twice in a row (with another limit): the newest history entry
+// describes the second search
+func VerifHarness_C17_RepeatedSearch() {
+	home := verifFSHome()
+	dbPath := home + "/db/commands.yml"
+	c17DB(dbPath)
+	q := []string{"compress", "compress directory"}[verifIntRange("query", 0, 1)]
+	l1 := []string{"1", "2"}[verifIntRange("firstLimit", 0, 1)]
+	l2 := []string{"3", "1"}[verifIntRange("secondLimit", 0, 1)]
+	_, p1 := c17Run(q, "--database", dbPath, "--limit", l1)
+	out, p2 := c17Run(q, "--database", dbPath, "--limit", l2)
+	verifAssert(!p1 && !p2, "C17: every documented sub-command starts and finishes without crashing")
+	printed := 0
+	for _, line := range strings.Split(out, "\n") {
+		if strings.Contains(line, "Description:") {
+			printed++
+		}
+	}
+	sh := history.NewSearchHistory(history.DefaultHistoryPath(), 100)
+	lerr := sh.Load()
+	verifAssert(lerr == nil && len(sh.Entries) >= 1, "C17: each search leaves exactly one corresponding newest entry in the history")
+	if lerr == nil && len(sh.Entries) >= 1 {
+		last := sh.Entries[len(sh.Entries)-1]
+		verifAssert(last.Query == q && last.ResultsCount == printed, "C17: the newest history entry corresponds to the latest search (query, number of results)")
+		verifAssert(len(sh.Entries) == 1, "C17: an immediately repeated query updates the newest entry instead of adding one")
+	}
+	verifReach("searched")
+}
